@@ -150,6 +150,13 @@ class Vector():
 		if isinstance(initial, Iterator):
 			initial = tuple(initial)
 			_precomputed_data = initial
+		elif isinstance(initial, Vector) and initial.ndims() <= 1:
+			# a (one-dimensional) vector given as data - Vector(v), Table({'a': v}) - stands for its
+			# elements, typed as they are in v (its truth value, tested below, is undefined)
+			if dtype is None:
+				dtype = initial._dtype
+			initial = tuple(initial)
+			_precomputed_data = initial
 
 		# Check if we're creating a Table (all elements are vectors of same length)
 		if initial and all(isinstance(x, Vector) for x in initial):
